@@ -21,6 +21,7 @@ RULE = ('cases: (source bytes, flag set, output mode, override). Non-trivial: th
         'exercised (split in the evidence into grew / tie / shrank); unparseable sources exercise the "nothing written" side. Distinct by the '
         'tuple.')
 ASSUMPTIONS = ['in-process main() with fake streams behaves like the executable (validated by a subprocess pass on a subset)']
+PREVIOUS = b'# previous content of the output file\n'
 MODES = ['stdin-stdout', 'file-stdout', 'file-output', 'in-place', 'stdin-output']
 FLAGSETS = [[], ['--rename-globals'], ['--no-remove-annotations', '--no-rename-locals'], ['--remove-literal-statements', '--rename-globals']]
 NPARTS = 64
@@ -92,6 +93,9 @@ def run_mode(src, flags, mode, force, scratch, runner=clidrv.run):
     for p in (inp, outp):
         if os.path.exists(p):
             os.unlink(p)
+    if mode.endswith('output'):
+        with open(outp, 'wb') as f:
+            f.write(PREVIOUS)       # whatever the output file held before the run
     if mode.startswith('file') or mode == 'in-place':
         with open(inp, 'wb') as f:
             f.write(src)
@@ -125,6 +129,9 @@ def violation_for(src, flags, mode, force, scratch):
         if mode == 'in-place':
             if written != src:
                 return ('invalid-source-file-modified', ctx + '\nfile now %r' % written[:200]), 'invalid'
+        elif mode.endswith('output'):
+            if written != PREVIOUS:
+                return ('invalid-source-touched-output-file', ctx + '\noutput file now %r' % (written[:200] if written is not None else None)), 'invalid'
         elif written not in (None, b''):
             return ('invalid-source-wrote-output', ctx + '\nwritten %r' % written[:200]), 'invalid'
         return None, 'invalid'
